@@ -267,6 +267,11 @@ func TestVerifC09(t *testing.T) {
 		}
 		scs = append(scs, hx.Scenario{Name: "burst/first=" + a, Opt: vrt.Options{Bound: 0}, Body: c09burst([]string{a}, maxLen), Verdict: c09verdict})
 	}
+	if hx.Thorough() {
+		for _, a := range c09alphabet {
+			scs = append(scs, hx.Scenario{Name: "dev1/first=" + a, Opt: vrt.Options{Bound: 1, TouchOn: []string{"Inbound"}}, Body: c09body([]string{a}, 3, true, ""), Verdict: c09verdict})
+		}
+	}
 	scs = append(scs, hx.Scenario{Name: "short", Opt: vrt.Options{Bound: 0}, Body: func() {
 		k := vrt.ChooseFree("one", len(c09alphabet)+1)
 		var seq []string
